@@ -212,3 +212,4 @@ def run(ctx):
             off += wdt
         cov.case(("fusion", fam.spec, X.tolist()), True)
     e2e.base_histories(ctx, "C02", ctx.scale(150, 3000), ctx.scale(20, 80), fields=("labels", "W"), with_pred=False)
+    e2e.sphere_histories(ctx, "C02", ctx.scale(80, 2000), ctx.scale(16, 50))
